@@ -18,12 +18,14 @@ import (
 )
 
 // C13 — the gRPC service answers each query of a batch like the library, in order: real `updog server`
-// processes, every batch of length 0..3 over 8 queries x 4 id patterns x server options x index files.
+// processes, every batch of length 0..3 over 8 queries x 5 id patterns x server options x index files.
 
 func c13Files() [][]model.Row {
 	return [][]model.Row{
 		{{"a": "1", "b": "2", "c": "foo"}, {"a": "1", "b": "3", "c": "bar"}, {"a": "5", "b": "2", "c": "foo"}, {"c": "quux"}},
 		{{"a": "x", "b": "é"}, {"a": "x", "b": "q\"\n"}, {}, {"b": "é"}, {"a": "", "b": "é"}},
+		// prefix-related column names: "a"+"bc" == "ab"+"c" (fields must not be identified by column+value glued together)
+		{{"a": "bc", "ab": "c", "b": "é"}, {"a": "b", "ab": "c"}, {"a": "bc", "ab": ""}, {"ab": "c", "b": "2"}},
 		func() []model.Row {
 			var r []model.Row
 			for i := 0; i < 1100; i++ {
@@ -40,12 +42,12 @@ type c13Q struct {
 }
 
 func c13Queries(file int) []c13Q {
-	a1 := model.Eq("a", map[int]string{0: "1", 1: "x", 2: "3"}[file])
-	bq := model.Eq("b", map[int]string{0: "2", 1: "é", 2: "17"}[file])
+	a1 := model.Eq("a", map[int]string{0: "1", 1: "x", 2: "bc", 3: "3"}[file])
+	bq := model.Eq("b", map[int]string{0: "2", 1: "é", 2: "é", 3: "17"}[file])
 	return []c13Q{
 		{a1, nil},
 		{a1, []string{"b"}},
-		{model.Not(a1), []string{"a", "b"}},
+		{map[bool]*model.Expr{false: model.Not(a1), true: model.Not(model.Eq("a", "nomatch"))}[file == 2], map[bool][]string{false: {"a", "b"}, true: {"a", "ab"}}[file == 2]},
 		{model.Eq("a", "nomatch"), []string{"a"}},
 		{model.Or(a1, bq), nil},
 		{model.And(model.Or(a1, bq), model.Not(model.And(a1, bq))), []string{"a"}},
@@ -54,7 +56,7 @@ func c13Queries(file int) []c13Q {
 	}
 }
 
-var c13IDPatterns = []string{"zero", "explicit", "duplicate", "mixed"}
+var c13IDPatterns = []string{"zero", "explicit", "duplicate", "mixed", "low"}
 
 func c13IDs(pattern string, n int) []int32 {
 	ids := make([]int32, n)
@@ -67,6 +69,10 @@ func c13IDs(pattern string, n int) []int32 {
 		case "mixed":
 			if i%2 == 1 {
 				ids[i] = int32(9 - i)
+			}
+		case "low": // one explicit id that coincides with the position of a later id-less query
+			if i == 0 {
+				ids[i] = 2
 			}
 		}
 	}
